@@ -50,8 +50,13 @@ def gen_plan(rng, idx):
     ml = entry == 'lib' and rng.random() < 0.3
     lang = rng.choice(['en-GB', 'de-DE', 'ru-RU'])
     W = docgen.Words(rng)
+    nosp = rng.random() < 0.15
     kinds = [k for k in docgen.BASIC_KINDS
              if k not in ('usepackage',)]
+    if nosp:
+        # --no-specials / nosp deactivates \LTadd, \LTskip and the LT-SKIP
+        # comments (not \LTinput): keep them out of the document
+        kinds = [k for k in kinds if k not in ('ltadd', 'ltskip', 'skip_region')]
     frags = docgen.gen_document(rng, n_frags=rng.randrange(0, 12) or 0,
                                 kinds=rng.sample(kinds, rng.randrange(3, 12)),
                                 ml=False, lang=lang, W=W, end_newline=True) \
@@ -103,6 +108,13 @@ def gen_plan(rng, idx):
         else:
             lo = 1 if frags and frags[0].get('lt_ok') else 0
             frags.insert(rng.randrange(lo, len(frags) + 1), fr)
+    if rng.random() < 0.3:
+        # the line users are told to put into their preamble so that LaTeX
+        # itself knows the macro; the filter must ignore this re-definition
+        frags.insert(0, docgen.frag('ltinput_preamble', rng.choice([
+            '\\newcommand{\\LTinput}[1]{}\n',
+            '\\newcommand{\\LTinput}[1]{}  % only for LaTeX\n\n',
+            '\\renewcommand{\\LTinput}[1]{}\n'])))
     nested = rng.random() < 0.08
     if nested:
         ltfiles['nest.tex'] = {'text': '\\LTinput{nobody.tex}\n'}
@@ -116,7 +128,7 @@ def gen_plan(rng, idx):
         else:
             while last['s'].endswith('\n'):
                 last['s'] = last['s'][:-1]
-    plan = {'entry': entry, 'ml': ml, 'lang': lang, 'frags': frags,
+    plan = {'entry': entry, 'ml': ml, 'lang': lang, 'frags': frags, 'nosp': nosp,
             'ltfiles': ltfiles, 'nested': nested, '_index': idx,
             'pack': rng.choice(['*', '*', '', 'amsmath,babel'])}
     return plan
@@ -132,16 +144,20 @@ def concrete(plan, faulty):
     tex = docgen.doc_text(plan['frags'])
     entry = plan['entry']
     if entry == 'lib':
+        o = {'lang': plan['lang'], 'pack': plan['pack'], 'char': True}
+        if plan.get('nosp'):
+            o['nosp'] = True
         return {'kind': 'lib', 'files': files, 'ops': [{
-            'latex': tex, 'ml': plan['ml'],
-            'opts': {'lang': plan['lang'], 'pack': plan['pack'], 'char': True}}]}
+            'latex': tex, 'ml': plan['ml'], 'opts': o}]}
     files['main.tex'] = {'text': tex}
     if entry == 'cli':
         return {'kind': 'filter_cli', 'files': files,
-                'argv': ['--char', '--nums', 'nums.txt', '--lang', plan['lang'],
-                         '--pack', plan['pack'], 'main.tex']}
-    argv = ['--lt-command', 'simlt', '--language', plan['lang'], '--output',
-            'json', 'main.tex']
+                'argv': (['--nosp'] if plan.get('nosp') else [])
+                + ['--char', '--nums', 'nums.txt', '--lang', plan['lang'],
+                   '--pack', plan['pack'], 'main.tex']}
+    argv = (['--no-specials'] if plan.get('nosp') else []) + [
+        '--lt-command', 'simlt', '--language', plan['lang'], '--output',
+        'json', 'main.tex']
     if plan['pack'] != '*':
         argv[0:0] = ['--packages', plan['pack']]
     return {'kind': 'shell', 'files': files, 'argv': argv, 'names': ['main.tex'],
@@ -312,6 +328,8 @@ def evaluate(plan):
             # the catalogue guarantees this on the unchanged tree
             return viol('twin:text-lost', word=w)
     hid = docgen.hidden_words(plan['frags'])
+    if plan.get('nosp'):
+        probes['no_specials'] = 1
     for w in hid:
         if w in bad_txt:
             return viol('hidden-text-leaked', word=w)
@@ -396,6 +414,10 @@ def shrink(plan):
     if plan['pack'] != '*':
         c = copy.deepcopy(plan)
         c['pack'] = '*'
+        yield c
+    if plan.get('nosp'):
+        c = copy.deepcopy(plan)
+        c['nosp'] = False
         yield c
 
 
